@@ -43,6 +43,8 @@ XK = [
     ["XR", B([T("xr")]), "<REPR/>"],
     ["XS", B([T("stored"), dep("xd3", "3.0")], [["class", "st"]])],
     ["XS", ["L", [T("sl1"), I([T("sl2")])]]],
+    ["XT", B([T("from-str-subclass")]), "raw text of the str subclass"],
+    ["XD", ["L", [I([T("from-dep-subclass")]), dep("xd4", "4.0")]]],
 ]
 ITEMS = PLAIN + XK
 WRAPPERS = ["top", "block", "inline", "nested", "html-root", "displayed", "html-root-stored-head"]
@@ -51,7 +53,7 @@ WRAPPERS = ["top", "block", "inline", "nested", "html-root", "displayed", "html-
 def expand(spec):
     """own expansion table: spec -> list of plain specs replacing it."""
     k = spec[0]
-    if k in ("X", "XR", "XS"):
+    if k in ("X", "XR", "XS", "XT", "XD"):
         res = spec[1]
         if res[0] == "L":
             out = []
@@ -185,10 +187,16 @@ def fn(case):
         raised = False
     except RuntimeError:
         raised = True
+    js = __import__("json").dumps(real_spec)
+    has_xd = '"XD"' in js or '"XT"' in js
+    # (an un-expanded object that is itself a metadata node is skipped like any metadata node, and one
+    # that is itself a str is text: the statement exempts only "_repr_html_" dual objects and does not
+    # say what asking for markup must do with these two-protocol objects: the raise clause is not
+    # asserted for them; their render()/HTMLDocument.render() expansion is)
     if has_unexpanded(real_spec) and not raised:
         viols.append(("unexpanded:no-error", "get_html_string() emitted markup for a tree holding an "
                       "un-expanded tagifiable object", {"observed": s}))
-    if not has_unexpanded(real_spec) and raised:
+    if not has_unexpanded(real_spec) and raised and not has_xd:
         viols.append(("unexpanded:spurious-error", "get_html_string() raised for a fully plain tree", {}))
     nontriv = any(len(expand(it)) != 1 for it in items)
     return (nontriv, e["html"], viols, 6)
